@@ -218,6 +218,57 @@ func stringPlacements() *space {
 	return listSpace("15-octet strings: base + single + double placements of {00,20,41,7f,80,ff} over 'A'-filled and zero-filled base", l)
 }
 
+// stringRuns: 15-octet payloads that contain runs of high octets - a character decoder must take
+// every octet for one character whatever its neighbours are (a run that happens to be well-formed
+// UTF-8 is still that many ISO 8859-1 characters). "T" + run + "C" + NULs, and the same run at the
+// end of the field:
+//   all 2^16 two-octet runs; all three-octet runs E0..EF x 80..BF x 80..BF; four-octet runs
+//   F0..F7 x {80,8F,90,9F,A0,BF}^3 (thorough: F0..F4 x all 64^3 continuation octets).
+func stringRuns(thorough bool) *space {
+	const n2, n3 = 1 << 16, 16 * 64 * 64
+	cont := []byte{0x80, 0x8F, 0x90, 0x9F, 0xA0, 0xBF}
+	n4 := uint64(8 * 6 * 6 * 6)
+	if thorough {
+		n4 = 5 * 64 * 64 * 64
+	}
+	per := uint64(n2) + n3 + n4
+	return &space{
+		name: "15-octet strings: runs of 2, 3 and 4 high octets (every 2-octet run, every well-formed 3-octet UTF-8 shape, 4-octet shapes) inside and at the end of the field",
+		size: 2 * per,
+		gen: func(i uint64, buf []byte) []byte {
+			atEnd := i >= per
+			i %= per
+			var run []byte
+			switch {
+			case i < n2:
+				run = []byte{byte(i >> 8), byte(i)}
+			case i < n2+n3:
+				j := i - n2
+				run = []byte{0xE0 + byte(j>>12), 0x80 + byte(j>>6)&63, 0x80 + byte(j)&63}
+			default:
+				j := i - n2 - n3
+				if thorough {
+					run = []byte{0xF0 + byte(j>>18), 0x80 + byte(j>>12)&63, 0x80 + byte(j>>6)&63, 0x80 + byte(j)&63}
+				} else {
+					run = []byte{0xF0 + byte(j/216), cont[j/36%6], cont[j/6%6], cont[j%6]}
+				}
+			}
+			b := make([]byte, 15)
+			if atEnd {
+				for k := 1; k < 15-len(run); k++ {
+					b[k] = 'x'
+				}
+				copy(b[15-len(run):], run)
+			} else {
+				b[1] = 'T'
+				copy(b[2:], run)
+				b[2+len(run)] = 'C'
+			}
+			return append(buf, b...)
+		},
+	}
+}
+
 // varStrings: 28.001: leading octet {00,ff} + every byte string of length <= 3 over
 // {00,41,7f,c3,a9,ff}, with and without the NUL terminator.
 func varStrings() *space {
